@@ -14,7 +14,7 @@ func init() {
 		ID: "C19",
 		Decides: "(R19.1) the center's list of temp databases and its removed list are written only with the center lock held exclusively (or in helpers called only with it held, or the constructor) and read under the lock or through the locked snapshot helpers; " +
 			"(R19.2) every leveldb key builder a reader uses is used by the block writer (and vice versa) — a reader cannot look where nothing is written; every key builder carries each of its parameters in full under its own prefix constant; (R19.3) every read of the center falls back to the same read of the permanent database with the caller's own argument — for the by-block-height suffrage proof the requested height, lowered to lowest-temp-minus-one only when it lies above it; " +
-			"(R19.4) a temp database is published to readers only after its own merge marker write succeeded and only for the height following the newest one; it leaves the list only after the permanent merge succeeded; (R19.5) Center.state consults a temp only if it is newer than the newest holder of the key found so far, replaces the remembered height only by the height of a newer temp that holds the key, and never resets it (closed or empty temps leave it unchanged).; (R19.j) jobs handed to a worker read only captured variables that the submitter does not assign again (no job works on a later batch/slot than the one it was created for); (R19.6) the temps answer a suffrage proof only for the asked suffrage height; (R19.7) the by-block-height read works on one snapshot of the temp list and (R19.8) a block writer's state cache is not shared across heights — R19.7 and R19.8 violated today, known findings",
+			"(R19.4) a temp database is published to readers only after its own merge marker write succeeded and only for the height following the newest one; it leaves the list only after the permanent merge succeeded; (R19.5) Center.state consults a temp only if it is newer than the newest holder of the key found so far, replaces the remembered height only by the height of a newer temp that holds the key, and never resets it (closed or empty temps leave it unchanged).; (R19.j) jobs handed to a worker read only captured variables that the submitter does not assign again (no job works on a later batch/slot than the one it was created for); (R19.6) the temps answer a suffrage proof only for the asked suffrage height; (R19.7) the by-block-height read works on one snapshot of the temp list and (R19.8) a block writer's state cache is not shared across heights — R19.7 and R19.8 violated today, known findings; (R19.9) a permanent database reads a state from storage and fills its state cache under the lock its merge holds; (R19.10) the last height answered with the last suffrage proof is the newest database's",
 		NotDecided: "agreement with a model over all histories of writes/merges/removals (needs execution); monotonicity of concurrent reads during merges beyond the snapshot/lock discipline.",
 		Run:        runC19,
 	})
@@ -50,6 +50,8 @@ func runC19(c *Ctx) {
 			"after activeTemps() the temp of the height is looked up again with findTemp() at "+strings.Join(second, ", ")+": a merge in between makes it nil and the read falls back to an older block's proof")
 	}
 	stateCacheOwnershipRule(c, "R19.8")
+	permStateCacheLockRule(c, "R19.9")
+	lastProofHeightRule(c, "R19.10")
 	c.Rule("R19.j", "AsyncCapture")
 	c.AsyncCaptures(c.Need("isaac/database.(*Center).dig"), "*.NewJob", 1)
 	// R19.1 --------------------------------------------------------------------------------------
@@ -399,5 +401,88 @@ func stateCacheOwnershipRule(c *Ctx, rule string) {
 		}
 		c.Report(fn, "every block writer of an import range gets a state cache of its own", fn.Pos(), !shared,
 			"one LFU cache is created once and handed (wrapped) to every block writer of the range: the last writer of a key wins whatever its height, and mergeTempCaches plants it in the permanent cache")
+	}
+}
+
+// permStateCacheLockRule (R19.9): a permanent database's State() fills the state cache with what it
+// read from storage. The merge replaces the stored state and then drops the key from the cache, all
+// under the database's merge lock; a reader that read before the merge and caches after it puts the
+// replaced state back, and every later State() answers it. Read and cache-fill therefore happen
+// under that same lock (read mode suffices).
+func permStateCacheLockRule(c *Ctx, rule string) {
+	c.Rule(rule, "LockHeld")
+	for _, t := range []struct{ typ, get string }{
+		{"LeveldbPermanent", "(*storage/leveldb.PrefixStorage).Get"},
+		{"RedisPermanent", "(*storage/redis.Storage).Get"},
+	} {
+		merge := c.Need("isaac/database.(*" + t.typ + ").MergeTempDatabase")
+		state := c.Need("isaac/database.(*" + t.typ + ").State")
+		if merge == nil || state == nil {
+			continue
+		}
+		// the lock the merge works under
+		var mergeLocks []string
+		mst := c.LockStates(merge, nil)
+		for _, in := range c.CallsTo(merge, "(*isaac/database."+t.typ+").mergeTempDatabaseFromLeveldb") {
+			for k, v := range mst[in] {
+				if v >= LW {
+					mergeLocks = append(mergeLocks, k)
+				}
+			}
+		}
+		sort.Strings(mergeLocks)
+		if !c.Floor(merge, "write locks held by the merge", len(mergeLocks), 1) {
+			continue
+		}
+		var targets []ssa.Instruction
+		gets := c.CallsTo(state, t.get)
+		fills := c.CallsTo(state, "(*isaac/database.basePermanent).setStateToCache")
+		c.Exists(state, t.typ+".State reads the storage", gets, 1)
+		c.Exists(state, t.typ+".State fills the state cache", fills, 1)
+		targets = append(append(targets, gets...), fills...)
+		sst := c.LockStates(state, nil)
+		for _, in := range targets {
+			ok := false
+			for _, k := range mergeLocks {
+				if sst[in][k] >= LR {
+					ok = true
+				}
+			}
+			what := "storage read"
+			if callCommon(in) != nil && strings.HasSuffix(CalleeFullName(callCommon(in)), "setStateToCache") {
+				what = "cache fill"
+			}
+			c.Report(state, t.typ+".State: "+what+" under the merge lock", c.InstrPos(in), ok,
+				"merge lock "+strings.Join(mergeLocks, ",")+"; held on every path: "+stateStr(sst[in]))
+		}
+	}
+}
+
+// lastProofHeightRule (R19.10): Center.LastSuffrageProofBytes answers, beside the proof, the last
+// block height of the node (the handler sends it to peers as such). It walks the databases from
+// the newest to the permanent one until one holds a proof; the height it answers must be the
+// newest database's, not the height of whichever older database held the proof: a height taken
+// from the walked database is used only for the first one (or only to raise the answer).
+func lastProofHeightRule(c *Ctx, rule string) {
+	c.Rule(rule, "MustPass")
+	fn := c.Need("isaac/database.(*Center).LastSuffrageProofBytes")
+	if fn == nil {
+		return
+	}
+	var hs []ssa.Instruction
+	for _, in := range c.CallsTo(fn, "(base.Manifest).Height") {
+		if strings.Contains(c.D(in.(ssa.Value)), "[ι].LastBlockMap()") {
+			hs = append(hs, in)
+		}
+	}
+	if len(hs) == 0 {
+		// the height does not come from the walked databases at all (e.g. from Center.LastBlockMap): nothing to order
+		c.Report(fn, "last height is not taken from the walked databases", fn.Pos(), true, "")
+		return
+	}
+	for _, h := range hs {
+		d := globEscape(c.D(h.(ssa.Value)))
+		c.MP(fn, "the height of a walked database is taken only from the newest one (or only raises the answer)", []ssa.Instruction{h}, 1,
+			GCmp("ι", "==", "0"), GCmp("ι", "<", "1"), GCmp(d, ">", "*"), GCmp("*", "<", d))
 	}
 }
